@@ -484,6 +484,235 @@ def r6_affixes(ctx):
     ctx.check(has(li, "if len(m) == 0: m = 1"), a2, "missing-count=1", "a missing leading count means 1", node=li)
 
 
+def _grammar_env(fn):
+    """name -> value node for the single-assignment grammar pieces of _get_formula_parser"""
+    env = {}
+    for n in fn.body:
+        if isinstance(n, ast.Assign) and len(n.targets) == 1 and isinstance(n.targets[0], ast.Name):
+            env[n.targets[0].id] = n.value
+    return env
+
+
+def _seq(node):
+    """flatten a pyparsing And chain written with + or - (`-` only disables backtracking)"""
+    if isinstance(node, ast.BinOp) and isinstance(node.op, (ast.Add, ast.Sub)):
+        return _seq(node.left) + _seq(node.right)
+    return [node]
+
+
+def _alts(node):
+    if isinstance(node, ast.BinOp) and isinstance(node.op, (ast.BitOr, ast.BitXor)):
+        return _alts(node.left) + _alts(node.right)
+    return [node]
+
+
+def r7_skeleton(ctx):
+    """control skeleton of the pipeline: which arm runs for which token, and that every parse action is wired"""
+    # ---- _parse_stoich
+    ps = ctx.func(PARSING, "_parse_stoich")
+    a = PARSING + ":_parse_stoich"
+    first = [s for s in ps.body if isinstance(s, ast.If)]
+    ok = bool(first) and U(first[0].test) in ("stoich == 'e'", "'e' == stoich") and len(first[0].body) == 1 and isinstance(first[0].body[0], ast.Return) \
+        and U(first[0].body[0].value) in ("{}", "dict()") and not first[0].orelse
+    ctx.check(ok, a, "electron-only-special-case", "only the token 'e' may bypass the grammar (returning {}); found `if %s`" % (U(first[0].test) if first else None), node=ps)
+    lp = for_loops(ps)
+    kn, nn = target_names(lp[0].target) if lp else (None, None)
+    ups = subscript_stores(ps.body, "comp")
+    ints = [u for u in ups if isinstance(u.value, ast.Call) and call_name(u.value) == "int"]
+    plain = [u for u in ups if not (isinstance(u.value, ast.Call) and call_name(u.value) == "int")]
+    eqs = ("%s == int(%s)" % (nn, nn), "int(%s) == %s" % (nn, nn))
+    ok = all(u.cond is not None and U(u.cond[0]) in eqs and u.cond[1] is True for u in ints) and \
+        all(u.cond is None or (U(u.cond[0]) in eqs and u.cond[1] is False) for u in plain) and bool(plain)
+    ctx.check(ok, a, "int-only-when-integral", "int(n) may replace n only under `n == int(n)`, and the other arm must keep n; stores: %s" % [
+        (U(u.value), U(u.cond[0]) if u.cond else None, u.cond[1] if u.cond else None) for u in ups], node=ps)
+    ok = len(lp) == 1 and isinstance(lp[0].iter, ast.Call) and U(lp[0].iter.func) == "_get_formula_parser().parseString" and U(lp[0].iter.args[0]) == "stoich"
+    ctx.check(ok, a, "parses-own-argument", "the grammar must parse this part's text (`_get_formula_parser().parseString(stoich, ...)`)", node=ps)
+
+    # ---- formula_to_composition
+    fc = ctx.func(PARSING, "formula_to_composition")
+    a = PARSING + ":formula_to_composition"
+    split_if = None
+    for s in fc.body:
+        if isinstance(s, ast.If) and isinstance(s.test, ast.Compare) and len(s.test.ops) == 1 and isinstance(s.test.comparators[0], ast.Name) \
+                and any(isinstance(x, ast.Call) and isinstance(x.func, ast.Attribute) and x.func.attr == "split" for x in ast.walk(s)):
+            split_if = s
+    if split_if is None:
+        raise AnalysisError("formula_to_composition: hydrate split not found")
+    t = split_if.test
+    subj = U(t.comparators[0])
+    ok = isinstance(t.ops[0], ast.In) and isinstance(t.left, ast.Constant) and t.left.value == "·" and len(split_if.body) == 1 and len(split_if.orelse) == 1
+    if ok:
+        b, o = split_if.body[0], split_if.orelse[0]
+        ok = isinstance(b, ast.Assign) and isinstance(o, ast.Assign) and U(b.targets[0]) == U(o.targets[0]) \
+            and U(b.value) == "%s.split('·')" % subj and U(o.value) == "%s.split('..')" % subj
+    ctx.check(ok, a, "hydrate-separators", "parts must be split on the middle dot when present, on '..' otherwise; found `%s`" % U(split_if).splitlines()[0], node=split_if)
+    # the stoichiometry token comes from _formula_to_parts
+    outer = [f for f in for_loops(fc) if any(isinstance(c, ast.Call) and call_name(c) == "_parse_stoich" for c in walk_shallow(f))]
+    if not outer:
+        raise AnalysisError("formula_to_composition: part loop not found")
+    outer = outer[0]
+    parts_name = U(split_if.body[0].targets[0]) if ok else "parts"
+    ok = U(outer.iter) == "enumerate(%s)" % parts_name
+    idx = target_names(outer.target)[0] if ok else None
+    arm = [s for s in outer.body if isinstance(s, ast.If)]
+    ok = ok and bool(arm) and U(arm[0].test) in ("%s == 0" % idx, "0 == %s" % idx) and len(arm[0].body) == 1 and U(arm[0].body[0]).replace(" ", "") == "m=1" \
+        and len(arm[0].orelse) == 1 and isinstance(arm[0].orelse[0], ast.Assign) and call_name(arm[0].orelse[0].value) == "_get_leading_integer"
+    ctx.check(ok, a, "first-part-no-count", "part 0 (index from enumerate(parts)) has multiplier 1, every later part its leading count; found `%s` over `%s`" % (
+        U(arm[0].test) if arm else None, U(outer.iter)), node=outer)
+    calls = [c for c in walk_shallow(outer) if isinstance(c, ast.Call) and call_name(c) == "_parse_stoich"]
+    st_name = target_names(outer.target)[1] if len(target_names(outer.target)) == 2 else None
+    ctx.check(len(calls) == 1 and U(calls[0].args[0]) == st_name, a, "part-parsed", "each part (minus its count) must go through _parse_stoich", node=outer)
+    ret = [n for n in walk_shallow(fc) if isinstance(n, ast.Return) and isinstance(n.value, ast.Name)]
+    tot = ret[-1].value.id if ret else "tot_comp"
+    inner = [f for f in for_loops(outer)]
+    ups = subscript_stores(inner[0].body, tot) if inner else []
+    kinds = sorted(u.kind for u in ups)
+    ctx.check(kinds == ["+=", "="] or (kinds == ["+="] and isinstance(ups[0].stmt, ast.Assign)), a, "first-and-repeat-stores",
+              "element counts need both the first-occurrence store and the += for repeats; found %s" % kinds, node=outer)
+    init = [n for n in fc.body if isinstance(n, ast.Assign) and U(n.targets[0]) == tot]
+    ctx.check(len(init) == 1 and U(init[0].value) in ("{}", "dict()"), a, "starts-empty", "the composition must start empty (no other keys)", node=fc)
+    zero = [u for u in subscript_stores(fc.body, tot) if isinstance(u.key, ast.Constant) and u.key.value == 0]
+    chg = None
+    for n in walk_shallow(fc):
+        if isinstance(n, ast.Assign) and isinstance(n.targets[0], (ast.Tuple, ast.List)) and len(n.targets[0].elts) == 2 and "_formula_to_parts" in U(n.value):
+            chg = U(n.targets[0].elts[1])
+    ok = len(zero) == 1 and chg is not None and zero[0].cond is not None and U(zero[0].cond[0]) == "%s is not None" % chg and zero[0].cond[1] is True \
+        and U(zero[0].value) == "_get_charge(%s)" % chg
+    ctx.check(ok, a, "charge-iff-token", "key 0 must be set from the charge token exactly when there is one (`if chg_tok is not None`); found %s" % [
+        (U(u.stmt), U(u.cond[0]) if u.cond else None) for u in zero], node=fc)
+
+    # ---- _get_charge
+    gc = ctx.func(PARSING, "_get_charge")
+    a = PARSING + ":_get_charge"
+    ctx.check(has(gc, "if chgstr == '+': return 1") and has(gc, "elif chgstr == '-': return -1") or
+              (has(gc, "if chgstr == '+': return 1") and has(gc, "if chgstr == '-': return -1")), a, "bare-sign-arms", "bare '+' / '-' must return +1 / -1", node=gc)
+    loop = [f for f in for_loops(gc) if isinstance(f.iter, ast.Call) and call_name(f.iter) == "zip"]
+    if not loop:
+        raise AnalysisError("_get_charge: sign loop not found")
+    loop = loop[0]
+    tokn, antin, signn = target_names(loop.target)
+    top = [s for s in loop.body if isinstance(s, ast.If)]
+    ok = len(top) == 1 and U(top[0].test) == "%s in chgstr" % tokn and not top[0].orelse
+    ctx.check(ok, a, "arm-per-present-sign", "the magnitude is read only for the sign that occurs in the string (`if token in chgstr`)", node=loop)
+    rets = [n for n in walk_shallow(loop) if isinstance(n, ast.Return)]
+    for r in rets:
+        ic = [c for c in ast.walk(r.value) if isinstance(c, ast.Call) and call_name(c) == "int"]
+        ok = len(ic) == 1
+        if ok:
+            arg = ic[0].args[0]
+            ok = U(arg) == "after" or (isinstance(arg, ast.IfExp) and U(arg.test) in ("after == ''", "not after") and U(arg.body) == "1" and U(arg.orelse) == "after")
+            c, p = monomial(r.value)
+            ok = ok and c == 1 and all(e == {"1": 1} for e in p.values())
+        ctx.check(ok, a, "magnitude=int(after)", "the magnitude must be int(<digits after the sign>) (1 only when there are none), multiplied by the sign; found `%s`" % U(r.value), node=r)
+        # the guard of that return
+        g = None
+        for n in walk_shallow(loop):
+            if isinstance(n, ast.If) and any(x is r for x in n.body):
+                g = n
+        ctx.check(g is not None and U(g.test) in ("len(after) > 0", "len(after) >= 1", "len(after) != 0", "after", "after != ''"), a, "magnitude-guard",
+                  "the return must be taken exactly when digits follow the sign; guard is `%s`" % (U(g.test) if g is not None else None), node=r)
+
+    # ---- _formula_to_parts: charge split skeleton
+    fp = ctx.func(PARSING, "_formula_to_parts")
+    a = PARSING + ":_formula_to_parts"
+    cl = [f for f in for_loops(fp) if isinstance(f.iter, ast.Constant) and f.iter.value in ("+-", "-+")]
+    if len(cl) != 1:
+        raise AnalysisError("_formula_to_parts: `for token in '+-'` not found")
+    cl = cl[0]
+    tk = target_names(cl.target)[0]
+    top = [s for s in cl.body if isinstance(s, ast.If)]
+    ok = len(top) == 1 and len(cl.body) == 1 and U(top[0].test) == "%s in formula" % tk and not top[0].orelse and isinstance(top[0].body[-1], ast.Break)
+    ctx.check(ok, a, "split-at-present-sign", "`for token in '+-': if token in formula: ...; break` -- the first sign present splits the string and ends the search", node=cl)
+    if ok:
+        ctx.check(has(top[0], "parts = formula.split(%s)" % tk, scope=fp), a, "split-on-token", "the string must be split at the sign token", node=top[0])
+    ok = len(cl.orelse) == 1 and has(cl.orelse[0], "parts = [formula, None]", scope=fp)
+    ctx.check(ok, a, "no-sign->None-in-else", "`parts = [formula, None]` must be the for-else arm (reached only when no sign was found)", node=cl)
+
+    # ---- _get_leading_integer
+    li = ctx.func(PARSING, "_get_leading_integer")
+    ctx.check(has(li, "elif len(m) == 1: s = s[len(m[0]):]") or has(li, "else: s = s[len(m[0]):]"), PARSING + ":_get_leading_integer", "one-match-arm",
+              "the single match of ^\\d+ must take the strip-and-convert arm", node=li)
+
+    # ---- grammar wiring
+    gp = ctx.func(PARSING, "_get_formula_parser")
+    a = PARSING + ":_get_formula_parser"
+    env = _grammar_env(gp)
+    acts = {}
+    fwd = []
+    for n in gp.body:
+        if isinstance(n, ast.Expr) and isinstance(n.value, ast.Call) and isinstance(n.value.func, ast.Attribute) and n.value.func.attr == "setParseAction":
+            acts[U(n.value.func.value)] = n.value.args[0]
+        if isinstance(n, ast.Expr) and isinstance(n.value, ast.BinOp) and isinstance(n.value.op, ast.LShift):
+            fwd.append((U(n.value.left), U(n.value.right)))
+    ctx.check(U(acts.get("term")) == "multiplyContents" if "term" in acts else False, a, "wired:term->multiplyContents", "term.setParseAction(multiplyContents) missing: group multipliers would not be applied", node=gp)
+    ctx.check(U(acts.get("formula")) == "sumByElement" if "formula" in acts else False, a, "wired:formula->sumByElement", "formula.setParseAction(sumByElement) missing: repeated elements would not be summed", node=gp)
+    ctx.check(fwd == [("formula", "OneOrMore(term)")], a, "formula=term+", "formula << OneOrMore(term); found %s" % fwd, node=gp)
+    lam = acts.get("count")
+    ok = isinstance(lam, ast.Lambda) and isinstance(lam.body, ast.IfExp)
+    if ok:
+        t0 = "%s[0]" % lam.args.args[0].arg
+        ie = lam.body
+        ok = U(ie.test) in ("%s == ''" % t0, "not %s" % t0) and U(ie.body) == "1" and U(ie.orelse) in ("float(%s)" % t0,)
+    ctx.check(ok, a, "count-action", "a missing subscript means 1, a written one its float value (`1 if t[0] == '' else float(t[0])`); found %s" % (U(lam) if lam is not None else None), node=gp)
+    cre = env.get("count")
+    ok = isinstance(cre, ast.Call) and cre.args and isinstance(cre.args[0], ast.Constant)
+    if ok:
+        try:
+            lang_ok = first_match_len(parse_regex(cre.args[0].value), "12.50") == 5 and first_match_len(parse_regex(cre.args[0].value), "12") == 2 \
+                and first_match_len(parse_regex(cre.args[0].value), "x") == 0
+        except Undecided:
+            lang_ok = False
+        ok = lang_ok
+    ctx.check(ok, a, "count-regex", "the subscript pattern must take a whole decimal (12.50), a whole integer (12) or nothing", node=gp)
+    term = env.get("term")
+    if not (isinstance(term, ast.Call) and call_name(term) == "Group" and term.args):
+        raise AnalysisError("_get_formula_parser: term = Group(...) not found")
+    seq = _seq(term.args[0])
+    alts = _alts(seq[0])
+    pairs = {"LP": "RP", "LSB": "RSB", "LCB": "RCB"}
+    lits = {"LP": r"\(", "RP": r"\)", "LSB": r"\[", "RSB": r"\]", "LCB": r"\{", "RCB": r"\}"}
+    for nm, lit in lits.items():
+        v = env.get(nm)
+        ok = v is not None and isinstance(v, ast.Call) and call_name(v) == "Suppress" and isinstance(v.args[0], ast.Call) and isinstance(v.args[0].args[0], ast.Constant) \
+            and v.args[0].args[0].value == lit
+        ctx.check(ok, a, "bracket:%s" % nm, "%s must be Suppress(Regex(%r)); found %s" % (nm, lit, U(v) if v is not None else None), node=gp)
+    seen_pairs = set()
+    has_element = False
+    for al in alts:
+        if U(al) == "element":
+            has_element = True
+            continue
+        # Group(X + formula + Y)("subgroup")
+        ok = isinstance(al, ast.Call) and isinstance(al.func, ast.Call) and call_name(al.func) == "Group" and len(al.args) == 1 and isinstance(al.args[0], ast.Constant) \
+            and al.args[0].value == "subgroup"
+        if not ok:
+            ctx.violation(a, "alternative:%s" % U(al)[:30], "a term is an element or a bracketed/caged formula named 'subgroup'; found %s" % U(al), node=gp)
+            continue
+        inner = [U(x) for x in _seq(al.func.args[0])]
+        if len(inner) == 3 and inner[1] == "formula":
+            ok = pairs.get(inner[0]) == inner[2]
+            ctx.check(ok, a, "balanced:%s" % inner[0], "a group opened by %s must be closed by %s, not %s" % (inner[0], pairs.get(inner[0]), inner[2]), node=gp)
+            seen_pairs.add(inner[0])
+        elif len(inner) == 2 and inner == ["caged", "formula"]:
+            seen_pairs.add("caged")
+        else:
+            ctx.violation(a, "group-shape:%s" % U(al)[:30], "unexpected group shape %s" % inner, node=gp)
+    ctx.check(has_element and seen_pairs >= {"LP", "LSB", "LCB"}, a, "term-alternatives", "a term must accept an element and ( ) [ ] { } groups; found %s" % sorted(seen_pairs), node=gp)
+    names = [x.args[0].value for x in seq[1:] if isinstance(x, ast.Call) and isinstance(x.func, ast.Call) and x.args and isinstance(x.args[0], ast.Constant)]
+    ok = len(seq) >= 2 and "Optional(count" in U(seq[1]) and names[:1] == ["mult"]
+    ctx.check(ok, a, "count-follows-term", "the subscript (named 'mult') must directly follow the element/group; found %s" % [U(x)[:40] for x in seq[1:]], node=gp)
+    mc = ctx.func(PARSING, "_get_formula_parser.multiplyContents")
+    a2 = PARSING + ":_get_formula_parser.multiplyContents"
+    ctx.check(has(mc, "t = tokens[0]") and has(mc, "if t.subgroup:") and has(mc, "return t.subgroup"), a2, "group-branch", "the scaled subgroup replaces the term only when the term is a group", node=mc)
+    se = ctx.func(PARSING, "_get_formula_parser.sumByElement")
+    a3 = PARSING + ":_get_formula_parser.sumByElement"
+    ctx.check(has(se, "elementsList = [t[0] for t in tokens]"), a3, "duplicates-by-symbol", "duplicates must be detected on the element symbols (t[0])", node=se)
+    dup = [n for n in walk_shallow(se) if isinstance(n, ast.Assign) and U(n.targets[0]) == "duplicates"]
+    ok = len(dup) == 1 and U(dup[0].value) in ("len(elementsList) > len(set(elementsList))", "len(elementsList) != len(set(elementsList))", "len(set(elementsList)) < len(elementsList)")
+    ctx.check(ok, a3, "duplicates-test", "duplicates <=> more tokens than distinct symbols", node=se)
+    ctx.check(has(se, "return ParseResults([ParseResults([k, v]) for k, v in ctr.items()])"), a3, "summed-pairs", "the summed result must be [symbol, total] pairs for every symbol", node=se)
+
+
 def sweep_offsets(ctx):
     """thorough: Z<->index offsets in the rest of the package (NOTE only)."""
     for m in ctx.repo.all_modules():
@@ -505,6 +734,7 @@ RULES = [
     Rule("C01-R4", r4_multipliers, 8, "hydrate-part and group multipliers multiply every element count; counts summed"),
     Rule("C01-R5", r5_charge_signs, 5, "charge sign table, signed magnitude, key 0"),
     Rule("C01-R6", r6_affixes, 9, "prefix/suffix stripping and leading hydrate count are exact"),
+    Rule("C01-R7", r7_skeleton, 30, "control skeleton: which arm runs for which token; parse actions wired; bracket pairs balanced"),
     Rule("C01-S1", sweep_offsets, 1, "package-wide offset sweep (notes only)", tier="thorough"),
 ]
 
